@@ -56,9 +56,19 @@ def h_lifecycle(e, cfg):
     registered, alive, expected = False, True, []
     prog = []
     plan = list(cfg["prefix"]) + [None] * cfg["free"]
+    ops = OPS + (["flip-train-flag", "flip-eval-flag"] if cfg.get("flags") else [])
     for step, fixed in enumerate(plan):
-        op = fixed if fixed is not None else OPS[e.choose(len(OPS))]
+        op = fixed if fixed is not None else ops[e.choose(len(ops))]
         prog.append(op)
+        if op in ("flip-train-flag", "flip-eval-flag"):
+            # the enable flags are assignable properties: a later module call obeys the CURRENT flags
+            if alive:
+                if op == "flip-train-flag":
+                    tu = not tu
+                    hook.trainexec = tu
+                else:
+                    eu = not eu
+                    hook.evalexec = eu
         training = m.training
         enabled = (tu and training) or (eu and not training)
         if op == "register":
@@ -86,7 +96,7 @@ def h_lifecycle(e, cfg):
                 hook(force=force, ignore_mode=ignore)
                 if (registered or force) and (ignore or enabled):
                     expected.append(m.calls)
-        else:
+        elif op == "delete":
             if alive:
                 del hook
                 gc.collect()
@@ -223,6 +233,10 @@ def checks(tier):
                     else:
                         free = 4 if not pf and tu and eu else (3 if len(pf) < 3 else 2)
                     life.append(dict(train_update=tu, eval_update=eu, as_prehook=pre, prefix=pf, free=free))
+    for tu in (True, False):
+        for eu in (True, False):
+            for pre in (False, True):
+                life.append(dict(train_update=tu, eval_update=eu, as_prehook=pre, prefix=["register"], free=(4 if th else 3), flags=True))
     cl = [dict(min=lo, max=hi, attr=a, as_prehook=pre) for (lo, hi) in ((-1.0, 1.0), (0.0, None), (None, 0.5), (0.25, 0.3)) for a in ("w", "inner.weight") for pre in (False, True)]
     nm = []
     for p in (1, 2, float("inf")):
@@ -237,7 +251,8 @@ def checks(tier):
 
 BOUNDS = {
     "quick": {"programs": "all programs of 4 operations (5-6 after the fixed prefixes register / register-deregister / register-deregister-register / register-call / register-eval) over "
-                          "{register, deregister, train, eval, call, manual(force, ignore_mode), delete+collect} x 4 enable-flag combinations x pre/post",
+                          "{register, deregister, train, eval, call, manual(force, ignore_mode), delete+collect} x 4 enable-flag combinations x pre/post; "
+                          "after [register] also 3-operation programs that additionally flip the trainexec / evalexec flags",
               "clamping": "symbolic 2x2 buffer and nested Parameter, 4 bound settings, pre/post; decided over the reals and again bit-exactly over IEEE float32 variables", "normalisation": "p in {1, 2, inf}, scale in {1, -2.5}, shapes (3,), (2,2), dims None/0/-1/(0,1)"},
     "thorough": {"programs": "5 free operations"},
 }
